@@ -367,15 +367,18 @@ class ExcerptC(RtContract):
     def hooks(self, cx, ex):
         def compile_re(ex, node, st):
             pat = ex.ev(node.args[0], st)
-            if not (isinstance(pat, StrLit) and pat.value == '\n'):
+            if not (isinstance(pat, StrLit) and pat.value in ('\n', b'\n')):
                 raise OutOfSubset('search pattern other than the line break')
-            return Opaque('re-nl')
+            return Opaque('re-nl', is_bytes=isinstance(pat.value, bytes))
         ex.call_hooks['_compile_re'] = compile_re
 
         def m_search(ex, node, recv, st):
             if not (isinstance(recv, Opaque) and recv.tag == 're-nl'):
                 return NotImplemented
             t = ex.ev(node.args[0], st)
+            # re: a str pattern cannot be used on bytes (TypeError) and vice versa
+            ex.safety(st, 'search: pattern and text are of the same kind (str / bytes), else re raises TypeError', node,
+                      BoolVal(isinstance(t, TextV) and t.is_bytes == getattr(recv, 'is_bytes', False)))
             frm = ex.as_int(ex.ev(node.args[1], st))
             ex.safety(st, 'search-from-nonneg', node, frm >= 0)
             found, ms = ex.fv('found', B), ex.fv('ms', I)
